@@ -150,6 +150,15 @@ fn convert_pattern(
     state: &converter::State,
     cache: &mut converter::Cache,
 ) -> Option<ServerOrColor> {
+    if state.parent_defs.contains(&node) {
+        log::warn!("Recursive 'pattern' detected: {}", node.element_id());
+        return None;
+    }
+
+    let mut pattern_state = state.clone();
+    pattern_state.parent_defs.push(node);
+    let state = &pattern_state;
+
     let node_with_children = find_pattern_with_children(node)?;
 
     let id = NonEmptyString::new(node.element_id().to_string())?;
